@@ -177,6 +177,7 @@ def tnet_from( conn, addr,
                 next( source )
             data		= cpppo.dotdict()
             started		= cpppo.timer()		# When did we start the current attempt at a TNET string?
+            initial		= source.sent		# 'til we've consumed a symbol of this TNET string
             for mch,sta in engine.run( source=source, data=data ):
                 if sta is not None or source.peek() is not None:
                     continue
@@ -211,6 +212,11 @@ def tnet_from( conn, addr,
                 if eof:
                     break
                 source.chain( msg )
+                # Symbols to ignore between TNET messages may arrive after the prior message (in a
+                # later recv); discard them here, too, 'til the first symbol of this TNET string
+                while ignore and source.sent == initial and source.peek() is not None and source.peek() in ignore:
+                    next( source )
+                    initial	= source.sent
 
             # Terminal state, or EOF, or control.done.  Only yield another TNET message if terminal. 
             duration		= cpppo.timer() - started
